@@ -185,11 +185,8 @@ def run(ck):
                   "UNDEF is refused as an output value" if not bad_['undef'] else '; '.join(bad_['undef']),
                   so, so.node)
             if not (bad_['changes'] or bad_['queued first'] or bad_['undef']):
-                try:
-                    _set_output_shape(ck, R6, so)
-                except AnalysisError as err_:
-                    ck.note(f"shape rules for set_output not applicable to this layout ({err_.reason}); "
-                            "decided by the abstract run")
+                from rules.shared import shapes_backed_by_run
+                shapes_backed_by_run(ck, lambda: _set_output_shape(ck, R6, so), 'SBlock.set_output')
         else:
             ck.note(f"abstract run of set_output not applicable: {run_['why']}")
             _set_output_shape(ck, R6, so)
